@@ -627,6 +627,8 @@ mutate_text(vh::Rng& rng, const std::string& text, bool allow_backslash)
     t.resize(t.size() - 1); // no final newline
   if (!allow_backslash)
     t.erase(std::remove(t.begin(), t.end(), '\\'), t.end());
+  else if (rng.range(0, 3) == 0)
+    t += rng.coin() ? "\\" : "\\\r"; // input ends in the continuation character
   // not modelled: NUL bytes and ${ENV} substitution
   t.erase(std::remove(t.begin(), t.end(), '\0'), t.end());
   std::size_t p;
@@ -1361,6 +1363,16 @@ main(int argc, char** argv)
   g_out = std::fopen(argv[4], "w");
   g_orc = std::fopen((std::string(argv[4]) + ".oracle").c_str(), "w");
   g_cls = std::fopen((std::string(argv[4]) + ".classes").c_str(), "w");
+  {
+    // the library writes some diagnostics straight to std::cerr (with bytes of the input): keep them out of the
+    // check's (UTF-8) console, in a log file next to the results
+    const int lfd = open((std::string(argv[4]) + ".log").c_str(), O_WRONLY | O_CREAT | O_TRUNC, 0666);
+    if (lfd >= 0)
+      {
+        dup2(lfd, 1);
+        dup2(lfd, 2);
+      }
+  }
   std::string outdir = argv[3];
   outdir = outdir.substr(0, outdir.find_last_of('/') == std::string::npos ? 0 : outdir.find_last_of('/'));
   if (outdir.empty())
